@@ -30,7 +30,9 @@ RULE = ("part 1 exhaustive over scenarios = (services in the configuration, Comp
         "core.takeover wired there; x {no holder, each of 5 holders} x every member with default-style arguments and with "
         "every other value of its enum-typed / optional parameters (from the signatures); then again after each connected "
         "protocol published volume/output devices/focus/play state with exactly the published values as arguments (twice, "
-        "and under a takeover); non-trivial = the call is not served by the first connected protocol of the plain "
+        "and under a takeover), and again while the implementations of one connected protocol raise NotSupportedError / "
+        "ProtocolError when called (the error must reach the caller, nobody else may execute the call); Companion's REAL "
+        "connect callable against a fake device, every request of its connect sequence rejected in turn; non-trivial = the call is not served by the first connected protocol of the plain "
         "priority list. part 2: random histories of takeover/release (>=30% failing takeovers by construction) interleaved "
         "with state updates; non-trivial = history with at least one failing takeover and one release; "
         "distinct = (scenario, holder, member incl. argument variant) / (scenario, holder, publisher) resp. (scenario, op list)")
@@ -648,13 +650,14 @@ def run_static(ctx, patches, scenarios, full_env):
                 table = {k: (who if v == raw else ("error-swallowed:" + who if v == who else v)) for k, v in table.items()}
                 env = {"publisher": who, "volume": None, "raises": kind}
             obs.append((world, t, env, table))
+        world.light = light
     lines = sorted({f"table {set_bits(w.S)} {t or '-'} {1 if w.video else 0}" for w, t, _e, _tb in obs})
     answers = dict(zip(lines, ctx.lean(lines)))
     for world, t, env, table in obs:
         S, sc = world.S, world.sc
         model = model_view(answers[f"table {set_bits(S)} {t or '-'} {1 if world.video else 0}"])
         model = {k: model.get(k.split("[")[0]) for k in table}     # the model's routing does not depend on arguments
-        case = {"kind": "call", "scenario": sc, "t": t, "env": env}
+        case = {"kind": "call", "scenario": sc, "t": t, "env": env, "light": getattr(world, "light", False)}
         if model != table:
             diff = {k: (table.get(k), model.get(k)) for k in set(table) | set(model) if table.get(k) != model.get(k)}
             ctx.disagree(case, {k: v[0] for k, v in diff.items()}, {k: v[1] for k, v in diff.items()}, where="routing table")
@@ -801,7 +804,7 @@ def compare_history(ctx, S, ops, obs, answers):
         ctx.validated(1 + len(table))
 
 
-def run(ctx, only_static=None, only_history=None):
+def run(ctx, only_static=None, only_history=None, full_env=None):
     loop = asyncio.new_event_loop()
     asyncio.set_event_loop(loop)
     patches = Patches(loop)
@@ -813,7 +816,8 @@ def run(ctx, only_static=None, only_history=None):
             else:
                 scenarios = all_scenarios(patches, rng, extra=ctx.scale(40, 400))
                 ctx.exhaustive = True
-            run_static(ctx, patches, scenarios, full_env=ctx.thorough or only_static is not None)
+            run_static(ctx, patches, scenarios,
+                       full_env=(ctx.thorough or only_static is not None) if full_env is None else full_env)
         if only_static is None:
             if only_history is not None:
                 hist = only_history
@@ -859,7 +863,8 @@ def replay(ctx, failure):
         ops = case["ops"][: case["step"] + 1]
         run(c2, only_history=[(case["scenario"], ops)])
     else:
-        run(c2, only_static=[case["scenario"]])
+        # twice in the same process: state kept across device objects (class level / module level) is in play
+        run(c2, only_static=[case["scenario"], case["scenario"]], full_env=not case.get("light", False))
     return bool(c2.failures)
 
 
